@@ -376,6 +376,59 @@ def run (st : St) : List Op → St
   | [] => st
   | o :: os => run (step st o).1 os
 
+/-! ### batches: `store.Insert` with several documents
+
+Go, `(*store).Insert(ctx, docs)`, under the store's lock:
+
+    for _, doc := range docs {
+        val := marshal(doc)
+        if err := s.segment.Store(val); err != nil { return err }   -- refused: stop here
+        if err := s.emit("insert", val); err != nil { return err }  -- announce THIS document now
+    }
+
+A document is stored and announced in the same iteration, so when document k is refused the
+documents 1..k-1 stay stored *and have been announced*. The segment refuses a document whose id is
+already stored (also: earlier in the same batch) – the model decides that itself – or for a
+reason the model does not look at (no id; a unique index such as (namespace, name)): such a
+document comes with `accepted = false`, as in C13's model. -/
+
+def insSpecs (st : St) : List (Spec × Bool) → St × Out
+  | [] => (st, .ok)
+  | (s, accepted) :: rest =>
+    if accepted = false then (st, .bad)
+    else
+      match step st (.insSpec s) with
+      | (st', .ok) => insSpecs st' rest
+      | (st', o) => (st', o)
+
+def insVals (st : St) : List (Value × Bool) → St × Out
+  | [] => (st, .ok)
+  | (v, accepted) :: rest =>
+    if accepted = false then (st, .bad)
+    else
+      match step st (.insVal v) with
+      | (st', .ok) => insVals st' rest
+      | (st', o) => (st', o)
+
+/-- The single-document operations a batch amounts to: the accepted documents up to the refused one. -/
+def specBatchOps (st : St) : List (Spec × Bool) → List Op
+  | [] => []
+  | (s, accepted) :: rest =>
+    if accepted = false then []
+    else
+      match step st (.insSpec s) with
+      | (st', .ok) => Op.insSpec s :: specBatchOps st' rest
+      | _ => []
+
+def valBatchOps (st : St) : List (Value × Bool) → List Op
+  | [] => []
+  | (v, accepted) :: rest =>
+    if accepted = false then []
+    else
+      match step st (.insVal v) with
+      | (st', .ok) => Op.insVal v :: valBatchOps st' rest
+      | _ => []
+
 /-- Consume every pending event (spec stream first), at most `fuel` of them. -/
 def drain : Nat → St → St
   | 0, st => st
